@@ -37,12 +37,16 @@ Don't use for: optimization (MILP), continuous variables (simplex/gradient).
 
 from collections.abc import Sequence
 from heapq import heapify, heappop, heappush
+from os import environ
 
 from solvor.types import Result, Status
 
 __all__ = ["solve_sat"]
 
 UNDEF = 2  # Variable state: 0=False, 1=True, 2=Undefined
+
+_VERIF = environ.get("SOLVOR_VERIF") == "1"
+_VERIF_TRACE: list | None = None  # verification harness sets this to a list before a call
 
 
 def lit_var(lit: int) -> int:
@@ -121,7 +125,12 @@ def solve_sat(
         for lit in clause:
             n_vars = max(n_vars, lit_var(lit))
 
+    def _ev(*event):
+        if _VERIF and _VERIF_TRACE is not None:
+            _VERIF_TRACE.append(event)
+
     if n_vars == 0:
+        _ev("verdict", "OPTIMAL")
         return Result({}, 0, 0, 0)
 
     vals = [UNDEF] * (n_vars + 1)
@@ -389,6 +398,7 @@ def solve_sat(
     unit_clauses = []
     for i, clause in enumerate(clauses):
         if len(clause) == 0:
+            _ev("verdict", "INFEASIBLE")
             return Result(None, 0, 0, 0, Status.INFEASIBLE)
         elif len(clause) == 1:
             unit_clauses.append((clause[0], i))
@@ -411,10 +421,15 @@ def solve_sat(
         if vals[var] == UNDEF:
             assign(var, val, idx)
         elif (vals[var] == 1) != val:
+            _ev("verdict", "INFEASIBLE")
             return Result(None, 0, 0, 0, Status.INFEASIBLE)
 
+    if _VERIF and _VERIF_TRACE is not None:
+        pure = [v if vals[v] == 1 else -v for v in trail if reasons[v] == -1]
+        _ev("init", n_vars, pure, [lit for lit, _ in unit_clauses], list(assumptions))
     conflict = propagate()
     if conflict >= 0:
+        _ev("verdict", "INFEASIBLE")
         return Result(None, 0, decisions, propagations, Status.INFEASIBLE)
 
     dec_level = 0
@@ -425,6 +440,7 @@ def solve_sat(
     while True:
         if conflict >= 0 or conflict == -2:
             if dec_level == 0 or conflict == -2:
+                _ev("verdict", "OPTIMAL" if all_solutions else "INFEASIBLE")
                 if all_solutions:
                     return Result(
                         all_solutions[0], len(all_solutions[0]), decisions, propagations, solutions=tuple(all_solutions)
@@ -434,6 +450,7 @@ def solve_sat(
             learned_clause, bt_level, lbd = analyze(conflict)
 
             if learned_clause is None:
+                _ev("verdict", "OPTIMAL" if all_solutions else "INFEASIBLE")
                 if all_solutions:
                     return Result(
                         all_solutions[0], len(all_solutions[0]), decisions, propagations, solutions=tuple(all_solutions)
@@ -444,6 +461,7 @@ def solve_sat(
             dec_level = bt_level
 
             clause_idx = len(clauses) + len(learned)
+            _ev("learn", tuple(learned_clause), False)
             learned.append(learned_clause)
             lbd_scores.append(lbd)
 
@@ -460,6 +478,7 @@ def solve_sat(
 
             if conflicts_since_restart >= next_restart:
                 if restarts >= max_restarts:
+                    _ev("verdict", "MAX_ITER")
                     if all_solutions:
                         return Result(
                             all_solutions[0],
@@ -487,14 +506,17 @@ def solve_sat(
         if var == 0:
             sol = {v: vals[v] == 1 for v in range(1, n_vars + 1) if vals[v] != UNDEF}
             all_solutions.append(sol)
+            _ev("solution", dict(sol))
 
             if len(all_solutions) >= solution_limit:
+                _ev("verdict", "OPTIMAL")
                 if solution_limit == 1:
                     return Result(sol, len(sol), decisions, propagations)
                 return Result(sol, len(sol), decisions, propagations, solutions=tuple(all_solutions))
 
             blocking = [(-v if vals[v] == 1 else v) for v in range(1, n_vars + 1) if vals[v] != UNDEF]
             clause_idx = len(clauses) + len(learned)
+            _ev("learn", tuple(blocking), True)
             learned.append(blocking)
             lbd_scores.append(0)  # not implied by the other clauses: reduce_db() must never drop it
 
@@ -523,6 +545,7 @@ def solve_sat(
         conflict = propagate()
 
         if conflicts >= max_conflicts:
+            _ev("verdict", "MAX_ITER")
             if all_solutions:
                 return Result(
                     all_solutions[0],
